@@ -804,15 +804,49 @@ def rule_N7(ctx):
     for r in own_nodes(fn):
         if isinstance(r, ast.Return) and r.lineno < f2.lineno:
             ctx.ob("N7", r, "no return before the de-duplication ran", False, f"return at line {r.lineno} precedes the group loop", inst="early-return")
-    # grouping: candidate = f_sanitize(element.name, is_file); every element is put in exactly one group
-    asg = {norm(a.targets[0]): norm(a.value) for a in ast.walk(f1) if isinstance(a, ast.Assign) and len(a.targets) == 1}
-    ok = asg.get("candidate_name") == "f_sanitize(element.name, is_file)" and asg.get("is_file") == "element.type_id != ElementTypes.DirectoryEntry"
-    ctx.ob("N7", f1, "names are recomputed from the raw stored name (idempotent under re-application) with the file/directory flag", ok,
-           f"{asg.get('candidate_name')}", inst="from-raw-name")
-    apps = [c for c in ast.walk(f1) if isinstance(c, ast.Call) and isinstance(c.func, ast.Attribute) and c.func.attr == "append"]
-    ok = len(apps) == 1 and norm(apps[0]) == "candidate_names[candidate_name].append(element)" and getattr(apps[0], "_parent", None) is not None \
-        and getattr(apps[0]._parent, "_parent", None) is f1
-    ctx.ob("N7", f1, "every element joins the group of its candidate name (unconditionally)", ok, "", inst="grouping")
+    # grouping: candidate = f_sanitize(element.name, is_file); every element is put in exactly one group (decided on the
+    # value-flow terms of the append executed on each iteration path of the grouping loop)
+    from .streams import _walk as _w
+    from .util import evaluator as _evr
+    lp1 = cfg.loop_of(f1)
+    el = f1.target.id if isinstance(f1.target, ast.Name) else None
+    sanit = fn.args.args[2].arg if len(fn.args.args) > 2 else "f_sanitize"
+    n_back, ok_raw, ok_grp, det_raw, det_grp = 0, True, True, "", ""
+    for kind, path, edge in cfg.iteration_paths(lp1):
+        if kind == "exit" and len(path) == 1:
+            continue
+        if kind != "back":
+            ok_grp, det_grp = False, "an element can leave the grouping loop early"
+            continue
+        n_back += 1
+        pr = _w(ctx, fn, cfg, path)
+        apps = [(c, e) for c, e, st in calls_on(pr) if isinstance(c.func, ast.Attribute) and c.func.attr == "append"]
+        if len(apps) != 1 or el is None:
+            ok_grp, det_grp = False, f"{len(apps)} group insertions on an iteration path"
+            continue
+        c, e = apps[0]
+        ev = _evr(ctx, fn, e)
+        recv = ev.ev(c.func.value).key()
+        arg = ev.ev(c.args[0]).key() if c.args else "?"
+        m = None
+        import re as _re
+        for pat in (rf"^sub\({gdict}~?,(?P<k>.+)\)$", rf"^{gdict}~?\.setdefault\((?P<k>.+),\[\]\)$", rf"^{gdict}~?\.setdefault\((?P<k>.+),list\(\)\)$"):
+            m = m or _re.match(pat, recv)
+        if m is None or arg != el + "~":
+            ok_grp, det_grp = False, f"`{norm(c)}`: not an insertion of the element into the group of its candidate name"
+            continue
+        k = m.group("k")
+        want_k = (f"{sanit}({el}~.name,cond({el}~.type_id != ElementTypes.DirectoryEntry))", f"{sanit}({el}~.name,cond(ElementTypes.DirectoryEntry != {el}~.type_id))")
+        if not any(k == w for w in want_k):
+            # tolerate other renderings of the flag as long as the name argument is the raw stored name
+            mk = _re.match(rf"^{sanit}\((?P<n>[^,]+),(?P<f>.+)\)$", k)
+            if mk is None or mk.group("n") != f"{el}~.name":
+                ok_raw, det_raw = False, f"group key is `{k[:120]}`"
+            elif "type_id" not in mk.group("f") or "DirectoryEntry" not in mk.group("f"):
+                ok_raw, det_raw = False, f"file/directory flag is `{mk.group('f')[:80]}`"
+    ctx.ob("N7", f1, "names are recomputed from the raw stored name (idempotent under re-application) with the file/directory flag", ok_raw and n_back >= 1,
+           det_raw, inst="from-raw-name")
+    ctx.ob("N7", f1, "every element joins the group of its candidate name (unconditionally)", ok_grp and n_back >= 1, det_grp, inst="grouping")
     # every member of every group gets exactly one f_set per path
     lp = cfg.loop_of(f3)
     n = 0
